@@ -101,6 +101,7 @@ def run(res, tier, seed):
             Calibrator.default_coeffs, Calibrator.default_file, Calibrator.default_version = None, None, None
             hist = []
             prev = None
+            last_passed = None
             reqs_coq, outs_coq = [], []
             for k in range(rng.randint(6, 14)):
                 sc = rng.choice(names)
@@ -118,10 +119,14 @@ def run(res, tier, seed):
                     keys = rng.sample(sorted(shipped[sc].keys()), rng.randint(1, 3))
                     base = (table or shipped)[sc]
                     custom = {kk: perturb(rng, kk, base[kk]) for kk in keys}
-                ctx = dict(history=h, position=k, spacecraft=sc, file=(os.path.basename(f) if f else None),
+                # a caller re-using one overrides dictionary for several requests (e.g. shared reader kwargs in a batch loop)
+                passed = copy.deepcopy(custom)
+                if last_passed is not None and rng.random() < 0.3:
+                    passed, custom = last_passed
+                ctx = dict(history=h, position=k, spacecraft=sc, file=(os.path.basename(f) if f else None), same_dict_object_as_before=passed is (last_passed or [None])[0],
                            custom_keys=sorted(custom) if custom else None, earlier=[(a, os.path.basename(b) if b else None, c_) for a, b, c_ in hist[-3:]], seed=seed)
                 try:
-                    c = Calibrator(sc, custom_coeffs=copy.deepcopy(custom), coeffs_file=f)
+                    c = Calibrator(sc, custom_coeffs=passed, coeffs_file=f)
                     out = "ok"
                 except (FileNotFoundError, json.JSONDecodeError, OSError, ValueError) as e:
                     c, out = None, "readerror"
@@ -129,6 +134,12 @@ def run(res, tier, seed):
                     res.violations.append(("request raised %r" % (e,), ctx))
                     hist.append((sc, f, sorted(custom) if custom else None))
                     continue
+                if passed != custom:
+                    res.violations.append(("Calibrator modified the caller's custom_coeffs dictionary",
+                                           dict(ctx, keys_before=sorted(custom or {}), keys_after=sorted(passed or {})[:12])))
+                    passed = copy.deepcopy(custom)
+                if custom:
+                    last_passed = (passed, custom)
                 if table is None:
                     if out != "readerror":
                         res.violations.append(("unreadable coefficient file did not fail (stale coefficients returned)", dict(ctx, version=c.version)))
